@@ -138,4 +138,4 @@ class SetFieldTransformation(PreprocessingTransformation):
 
     def apply(self, rule: SigmaRule | SigmaCorrelationRule) -> None:
         super().apply(rule)
-        rule.fields = self.fields
+        rule.fields = list(self.fields)
